@@ -188,11 +188,14 @@ func min[T constraints.Integer](v1, v2 T) T {
 func intersect[T constraints.Integer](intv Interval[T], inters []Interval[T]) ([]Interval[T], int) {
 	intvs := make([]Interval[T], 0, 1)
 
+	// cnt is the number of leading intervals in inters which end before (or
+	// at) the end of intv. Those cannot intersect any interval following
+	// intv, so the caller can skip them. An interval reaching behind the end
+	// of intv must not be skipped as it can intersect following intervals.
 	var cnt int
 	for _, inter := range inters {
-		cnt++
-
 		if inter.End() <= intv.Begin() {
+			cnt++
 			continue
 		}
 
@@ -203,9 +206,13 @@ func intersect[T constraints.Integer](intv Interval[T], inters []Interval[T]) ([
 		begin := max(intv.Begin(), inter.Begin())
 		end := min(intv.End(), inter.End())
 		intvs = append(intvs, New(begin, end))
+
+		if inter.End() <= intv.End() {
+			cnt++
+		}
 	}
 
-	return intvs, cnt - 1
+	return intvs, cnt
 }
 
 func MapIntersect[T constraints.Integer](i1, i2 Map[T]) Map[T] {
